@@ -149,8 +149,17 @@ impl ActTask for Act {
         if state.is_running() {
             let tasks = task.children();
             let mut count = 0;
+            // a child whose error this act's own catch has taken has ended: the act goes on
+            // when the steps of the catch are done
+            let caught = task
+                .with_data(|data| data.get::<bool>(consts::IS_CATCH_PROCESSED))
+                .unwrap_or_default();
             for t in tasks.iter() {
                 if t.state().is_error() {
+                    if caught {
+                        count += 1;
+                        continue;
+                    }
                     ctx.emit_error()?;
                     return Ok(false);
                 }
